@@ -140,7 +140,8 @@ def Fields.layout (cfg : Cfg) (align : Bool) : Fields → LState → Except Err 
             | some bt =>
               match offset, st.bitsFieldOffset, bt.size with
               | some o, some bfo, some bs => .ok (decide (o > bfo + bs))
-              | _, _, _ => .error .typeErr      -- comparison / addition with None
+              | some _, some _, none => .error .typeErr
+              | _, _, _ => .ok false            -- `offset is not None and bits_field_offset is not None and ...'
           match third with
           | .error e => .error e
           | .ok newUnit =>
